@@ -33,7 +33,7 @@ fn main() {
     }
     let per_alg = ctx.n(3_000, 100_000);
     let max_ops = ctx.n(60, 400) as usize;
-    for alg in 0..15u8 {
+    for alg in 0..19u8 {
         let name = format!("histories-{}", ALG_NAMES[alg as usize]);
         ctx.prop(&name, "segtree-history", per_alg, case(Some(alg), max_ops), |c| run_case(c, Focus::Search));
     }
